@@ -292,18 +292,13 @@ theorem C15_hint_object_frame (p : HintObject.Params) (S S' : Schemas) (hw : WF 
 theorem C15_hint_object_absent (p : HintObject.Params) (S S' : Schemas) (hw : WF S)
     (hn : NoTarget (HintObject.targets p) S) (h : HintObject.run p S = .ok S') : S' = S :=
   HintObject.absent p S S' hw hn h
-/-- the transformation is also documented to WORK; it panics on a nil `Hints` map -/
-def C15_hint_object_total_full : Prop := HintObject.total_full
-theorem C15_hint_object_counterexample : ¬ C15_hint_object_total_full := HintObject.counterexample
-/-- the nil map is reachable through the public API (YAML `as:` then `hint_object`) -/
-theorem C15_hint_object_counterexample_reachable :
-    HintObject.isPanic (process [.retypeObject HintObject.wRetype, .hintObject HintObject.wP] HintObject.wS0) = true :=
-  HintObject.counterexample_reachable
-theorem C15_hint_object_total_partial (p : HintObject.Params) (S : Schemas) (hep : HintObject.EPWalkable S)
-    (hn : HintObject.noNilTarget p S = true) : ∃ S', HintObject.run p S = .ok S' := HintObject.total_partial p S hep hn
-example : HintObject.noNilTarget HintObject.wP
-    [{ pkg := "p", objects := [("A", { HintObject.wO with ty := .scalar "string" .nil [] freshMeta })] }] = true := by
-  decide
+/-- the transformation is also documented to WORK: it does, on every schema without nil kind
+    pointers (a nil `Hints` map included, since fix d683cb9 in /repo) -/
+theorem C15_hint_object_total (p : HintObject.Params) (S : Schemas) (hep : HintObject.EPWalkable S) :
+    ∃ S', HintObject.run p S = .ok S' := HintObject.total p S hep
+/-- the former defect, as a statement about the pre-fix code (`HintObject.runPreFix`) -/
+def C15_hint_object_total_full_preFix : Prop := HintObject.total_full_preFix
+theorem C15_hint_object_preFix_counterexample : ¬ C15_hint_object_total_full_preFix := HintObject.counterexample_preFix
 
 /-! ## sequences of transformations -/
 
